@@ -16,7 +16,14 @@ import (
 // Rng is a splitmix64 generator: every random choice of a run derives from VERIF_SEED.
 type Rng struct{ s uint64 }
 
-func NewRng(seed uint64) *Rng { return &Rng{s: seed*0x9E3779B97F4A7C15 + 0x1234567} }
+// NewRng hashes the seed (two splitmix rounds) so that nearby seeds give unrelated streams.
+func NewRng(seed uint64) *Rng {
+	r := &Rng{s: seed ^ 0x5DEECE66D1234567}
+	a := r.U64()
+	r.s = a ^ (seed * 0xD6E8FEB86659FD93)
+	r.s = r.U64()
+	return r
+}
 func (r *Rng) U64() uint64 {
 	r.s += 0x9E3779B97F4A7C15
 	z := r.s
